@@ -38,7 +38,7 @@ PP_DIR = "Resources/Hexagon/Preprocessor"
 INPUT_FILES = ["shortcode.h", "macros.h", "macros.inc", "macros_mmvec.h", "patches_macros.h"]
 
 F_JOIN = "KF-C20-continuation-join-drops-space"
-F_CMT = "KF-C20-continuation-line-taken-as-comment"
+F_FILTER = "KF-C20-line-filter-before-splice"
 F_SPC = "KF-C20-dowhile-space-inside-parens"
 F_PAIR = "KF-C20-dowhile-no-brace-matching"
 
@@ -73,6 +73,17 @@ def _quiet():
     PH.log = _log
 
 
+def scratch_base():
+    """tmpfs if there is one (rewriting a small file costs 3 ms on the disk-backed /tmp here, 16 us on
+    tmpfs, and the generated spaces rewrite the inputs for every case); /tmp otherwise."""
+    b = os.environ.get("VERIF_SCRATCH_BASE")
+    if b:
+        return b
+    if os.path.isdir("/dev/shm") and os.access("/dev/shm", os.W_OK | os.X_OK):
+        return "/dev/shm"
+    return "/tmp"
+
+
 @contextlib.contextmanager
 def scratch():
     """Rebind Conf.get_path into a fresh scratch tree; always restored and deleted."""
@@ -88,7 +99,7 @@ def scratch():
     if not (bundled / "shortcode.h").exists():
         raise core.HarnessError("bundled preprocessor inputs not found in %s" % bundled)
     _S["bundled_dir"] = str(bundled)
-    top = tempfile.mkdtemp(prefix="verif_c20_", dir="/tmp")
+    top = tempfile.mkdtemp(prefix="verif_c20_", dir=scratch_base())
     _S["top"] = top
     _S["root"] = None
     Conf.get_path = staticmethod(_scratch_get_path)
@@ -112,11 +123,20 @@ def worker_dir():
     return use_root("w%d" % os.getpid())
 
 
-def write_inputs(d, files):
+_WCACHE = {}
+
+
+def write_inputs(d, files, outputs=("macros_patched.h", "combined.h", "shortcode_resolved_tmp.h", "shortcode_resolved.h")):
+    """Input files of one case (rewritten only when the content changes); stale outputs removed so
+    that a step that silently writes nothing cannot pass on the previous case's file."""
     for n in INPUT_FILES:
-        with open(os.path.join(d, n), "w") as f:
-            f.write(files.get(n, ""))
-    for n in ("macros_patched.h", "combined.h", "shortcode_resolved_tmp.h", "shortcode_resolved.h"):
+        p = os.path.join(d, n)
+        c = files.get(n, "")
+        if _WCACHE.get(p) != c:
+            with open(p, "w") as f:
+                f.write(c)
+            _WCACHE[p] = c
+    for n in outputs:
         try:
             os.unlink(os.path.join(d, n))
         except FileNotFoundError:
@@ -173,11 +193,7 @@ def cpp_checked(text):
 def ref_resolve(files, names=UNIVERSE, deviate=()):
     """Reference: merge + standard preprocessing + wrapper stripping.
     -> (list of (name, tokens)) for every insn line, dict macro name -> function_like, other lines"""
-    mf = macro_files_of(files)
-    if deviate:
-        mf = [(deviate_macro_text(t, deviate), v) for t, v in mf]
-    text = R.ref_combined(mf, files.get("patches_macros.h", ""), files.get("shortcode.h", ""))
-    out = cpp_checked(text + "\n" + kind_probes(names))
+    out = cpp_checked(ref_input(files, deviate) + "\n" + kind_probes(names))
     insns = []
     kinds = {}
     stray = []
@@ -216,45 +232,60 @@ def code_resolved_lines(text):
 # ---- deviation rules of the known findings (macro file level)
 
 
-def deviate_macro_text(text, rules):
-    """The raw macro header as cleanup_macros effectively reads it under the given finding rules."""
-    lines = text.split("\n")
-    if F_CMT in rules:
-        # a physical line that continues a logical line and looks like a comment line is dropped
-        keep = []
-        prev_cont = False
-        for ln in lines:
-            cont = ln.rstrip().endswith("\\")
-            if prev_cont and re.match(r"(\s*//)|(/\*)|(\s*\*)", ln):
-                prev_cont = prev_cont  # the logical line goes on with the next kept line
-                continue
-            keep.append(ln)
-            prev_cont = cont
-        lines = keep
-    text = "\n".join(lines)
+_COMMENT_LOOK = re.compile(r"(\s*//)|(/\*)|(\s*\*)")
+
+
+def ref_macros(files, rules=()):
+    """Active text of the three macro headers.  rules = () is the standard reading (splice, then
+    directives; comments left to the preprocessor).  Deviation rules of the known findings:
+    F_FILTER: physical lines are filtered *before* continuation lines are spliced - blank lines,
+              lines that look like comment lines (start with //, /* at column 0, or white space and *)
+              and directive lines are removed/evaluated one physical line at a time, so a logical line
+              loses such a physical line and, if it was its last one, swallows the next kept line
+              (also across header boundaries);
+    F_JOIN:   white space in front of a backslash-newline is lost, so an unindented continuation line
+              merges with the token before the backslash."""
+    defined = set()
+    parts = []
+    filt = F_FILTER in rules
+    for text, is_vec in macro_files_of(files):
+        if filt:
+            text = "".join(ln + "\n" for ln in text.split("\n") if ln != "" and not _COMMENT_LOOK.match(ln))
+        parts.append(R.ref_macro_text(text, is_vec, defined, physical=filt))
+    t = "".join(parts) if filt else "\n".join(parts)
     if F_JOIN in rules:
-        # white space before a backslash-newline is lost; an unindented next line merges
-        text = re.sub(r"[ \t]+\\\n(?=\S)", r"\\\n", text)
-    return text
+        t = re.sub(r"[ \t]+\\\n(?=\S)", r"\\\n", t)
+    return t
+
+
+def ref_input(files, rules=(), shortcode=True):
+    """What the reference hands to the C preprocessor: originals, then the patch file (a later
+    definition replaces all earlier ones; new names are added), then the shortcode."""
+    p = files.get("patches_macros.h", "")
+    return ref_macros(files, rules) + "\n" + p + ("" if p.endswith("\n") else "\n") + "\n" + (files.get("shortcode.h", "") if shortcode else "")
+
+
+_TRIG_JOIN = re.compile(r"[ \t]\\\n\S")
+_TRIG_FILTER = re.compile(r"\\\n(?:\n|\s*//|/\*|\s*\*|#\s*(?:if|else|endif|include))")
 
 
 def macro_rule_candidates(files):
+    """Rule sets whose syntactic trigger occurs in the raw headers (cheap filter; attribution itself
+    is by outcome)."""
     raw = "\n".join(t for t, _ in macro_files_of(files))
-    c = []
-    if deviate_macro_text(raw, (F_JOIN,)) != raw:
-        c.append(F_JOIN)
-    if deviate_macro_text(raw, (F_CMT,)) != raw:
-        c.append(F_CMT)
-    out = [(x,) for x in c]
-    if len(c) == 2:
-        out.append(tuple(c))
+    tj = _TRIG_JOIN.search(raw) is not None
+    tf = _TRIG_FILTER.search(raw) is not None or any(t.rstrip("\n").endswith("\\") for t, _ in macro_files_of(files))
+    out = []
+    if tj:
+        out.append((F_JOIN,))
+    if tf:
+        out.append((F_FILTER,))
+        out.append((F_JOIN, F_FILTER))
     return out
 
 
 def ends_in_continuation(files, rules):
-    raw = "\n".join(t for t, _ in macro_files_of(files) if t)
-    t = deviate_macro_text(raw, rules).rstrip("\n")
-    return t.endswith("\\")
+    return ref_macros(files, rules).rstrip("\n").endswith("\\")
 
 
 # ---- deviation rules of the known findings (do-while level)
@@ -441,7 +472,7 @@ ITEMS = {
     "fdup": ["#define F(x) f2(x)"],
     "cont": ["#define G(x, y) do { x = y; \\", "        F(y); } while (0)"],
     "cont3": ["#define B (b3 + \\", "    b4 + \\", "    b5)"],
-    "contU": ["#define B b6 + \\", "b7"],
+    "contU": ["#define B b6 - \\", "-b7"],
     "contS": ["#define F(x) (x \\", "    * A)"],
     "qg": ["#ifdef QEMU_GENERATE", "#define A (a3)", "#endif"],
     "qge": ["#ifdef QEMU_GENERATE", "#define F(x) f3(x, \\", "    ctx)", "#else", "#define F(x) f4(x)", "#endif"],
@@ -525,7 +556,7 @@ UNDEFS = "".join("#undef %s\n" % n for n in UNIVERSE + ["DEF_SHORTCODE"])
 
 def code_patched_text(d, files):
     """macros_patched.h as written by the real preprocess_macros()."""
-    write_inputs(d, files)
+    write_inputs(d, files, outputs=("macros_patched.h",))
     pp = new_pp()
     st = call_code(pp.preprocess_macros)
     if st[0] != "ok":
@@ -537,10 +568,7 @@ def code_patched_text(d, files):
 
 
 def ref_patched_text(files, deviate=()):
-    mf = macro_files_of(files)
-    if deviate:
-        mf = [(deviate_macro_text(t, deviate), v) for t, v in mf]
-    return R.ref_combined(mf, files["patches_macros.h"], "")
+    return ref_input(files, deviate, shortcode=False)
 
 
 def expand_sections(sections):
@@ -598,42 +626,53 @@ def trivial_tokens():
     return _TRIVIAL
 
 
-def check_macro_case(d, case, ref_toks=None, code=None, code_toks=None):
-    """-> None | (why, finding ids or None)"""
-    files = macro_case_files(*case) if not isinstance(case, dict) else case
-    if code is None:
-        code = code_patched_text(d, files)
-    if ref_toks is None:
-        r = expand_one(ref_patched_text(files))
-        if r[0] != "ok":
-            raise core.HarnessError("reference input rejected by the preprocessor: %s" % (r[1],))
-        ref_toks = r[1]
-    why = None
+def judge_macro_case(files, code, ref_toks, code_toks, dev_toks):
+    """code: result of code_patched_text; *_toks: probe expansions (code_toks None if the code's file
+    was rejected / not produced); dev_toks: [(rules, tokens or None)] for the candidate rule sets.
+    -> None | (why, finding ids or None)"""
     if code[0] != "ok":
         why = "preprocess_macros raises %s: %s" % (code[1], code[2])
+    elif code_toks is None:
+        why = "macros_patched.h is not accepted by the C preprocessor"
+    elif code_toks != ref_toks:
+        k = next((i for i, (x, y) in enumerate(itertools.zip_longest(code_toks, ref_toks)) if x != y), 0)
+        why = "patched macro set differs: probes expand to `.. %s`, reference `.. %s`" % (" ".join(code_toks[max(0, k - 8) : k + 10]), " ".join(ref_toks[max(0, k - 8) : k + 10]))
     else:
-        if code_toks is None:
-            r = expand_one(code[1])
-            if r[0] != "ok":
-                why = "macros_patched.h is not accepted by the C preprocessor: %s" % r[1]
-            else:
-                code_toks = r[1]
-        if why is None and code_toks != ref_toks:
-            why = "patched macro set differs: probes expand to `%s`, reference `%s`" % (" ".join(code_toks)[:300], " ".join(ref_toks)[:300])
-    if why is None:
         return None
-    # attribution
-    for rules in macro_rule_candidates(files):
+    for rules, dt in dev_toks:
         if code[0] != "ok":
-            if code[1] == "IndexError" and F_CMT in rules and ends_in_continuation(files, rules):
+            if code[1] == "IndexError" and F_FILTER in rules and ends_in_continuation(files, rules):
                 return (why, list(rules))
             continue
-        if code_toks is None:
-            continue
-        r = expand_one(ref_patched_text(files, rules))
-        if r[0] == "ok" and r[1] == code_toks:
+        if code_toks is not None and dt is not None and dt == code_toks:
             return (why, list(rules))
     return (why, None)
+
+
+def dev_text(files, rules):
+    try:
+        return ref_patched_text(files, rules)
+    except core.HarnessError:
+        return None  # the deviated reading is not a well-formed header: this rule set explains nothing
+
+
+def check_macro_case(d, files):
+    """One case on its own (replay, and fallback when a batch could not be separated)."""
+    code = code_patched_text(d, files)
+    r = expand_one(ref_patched_text(files))
+    if r[0] != "ok":
+        raise core.HarnessError("reference input rejected by the preprocessor: %s" % (r[1],))
+    ref_toks = r[1]
+    code_toks = None
+    if code[0] == "ok":
+        r = expand_one(code[1])
+        code_toks = r[1] if r[0] == "ok" else None
+    dev = []
+    for rules in macro_rule_candidates(files):
+        t = dev_text(files, rules)
+        r = expand_one(t) if t is not None else ("err",)
+        dev.append((rules, r[1] if r[0] == "ok" else None))
+    return ref_toks, judge_macro_case(files, code, ref_toks, code_toks, dev)
 
 
 _A_PAIRS = None
@@ -645,29 +684,37 @@ def work_a(item):
     lo, hi = item
     d = worker_dir()
     cases = [(items, pl, patch) for items, pl in _A_PAIRS[lo:hi] for patch in _A_PATCHSETS]
-    codes = []
+    plan = []  # per case: files, code, index of R section, index of C section, [(rules, index)]
     secs = []
     for c in cases:
         files = macro_case_files(*c)
         code = code_patched_text(d, files)
-        codes.append(code)
+        ri = len(secs)
         secs.append(ref_patched_text(files))
-        secs.append(code[1] if code[0] == "ok" else "")
+        ci = None
+        if code[0] == "ok":
+            ci = len(secs)
+            secs.append(code[1])
+        dv = []
+        for rules in macro_rule_candidates(files):
+            t = dev_text(files, rules)
+            if t is None:
+                dv.append((rules, None))
+            else:
+                dv.append((rules, len(secs)))
+                secs.append(t)
+        plan.append((files, code, ri, ci, dv))
     toks = expand_sections(secs)
     bad = []
     nontrivial = 0
     triv = trivial_tokens()
-    for k, c in enumerate(cases):
+    for c, (files, code, ri, ci, dv) in zip(cases, plan):
         if toks is None:
-            r = check_macro_case(d, c, code=codes[k])
-            rt = None
+            rt, r = check_macro_case(d, files)
         else:
-            rt = toks[2 * k]
-            if codes[k][0] == "ok" and toks[2 * k + 1] == rt:
-                r = None
-            else:
-                r = check_macro_case(d, c, ref_toks=rt, code=codes[k], code_toks=toks[2 * k + 1] if codes[k][0] == "ok" else None)
-        if rt is None or rt != triv:
+            rt = toks[ri]
+            r = judge_macro_case(files, code, rt, toks[ci] if ci is not None else None, [(rules, toks[i] if i is not None else None) for rules, i in dv])
+        if rt != triv:
             nontrivial += 1
         if r:
             bad.append((c, r[0], r[1]))
@@ -743,7 +790,7 @@ def check_pipeline_case(d, files, level):
     if level == "B1":
         for rules in macro_rule_candidates(files):
             if code[0] != "ok":
-                if code[1] == "IndexError" and F_CMT in rules and ends_in_continuation(files, rules):
+                if code[1] == "IndexError" and F_FILTER in rules and ends_in_continuation(files, rules):
                     ids = list(rules)
                     break
                 continue
@@ -772,8 +819,7 @@ def _all_tokens(resolved_text):
 
 
 def _deviated_stream(files, rules):
-    mf = [(deviate_macro_text(t, rules), v) for t, v in macro_files_of(files)]
-    out = cpp_checked(R.ref_combined(mf, files["patches_macros.h"], files["shortcode.h"]))
+    out = cpp_checked(ref_input(files, rules))
     return R.strip_wrappers(R.ctokens(out))
 
 
@@ -782,8 +828,7 @@ def attribute_pipeline_strip(pre, post, files):
     pre-strip text, and that pre-strip text must be the standard expansion."""
     pre_l = [l for l in pre.split("\n") if l.strip() and not l.startswith("#line")]
     post_l = [l for l in post.split("\n") if l.strip() and not l.startswith("#line")]
-    mf = macro_files_of(files)
-    exp = cpp_checked(R.ref_combined(mf, files["patches_macros.h"], files["shortcode.h"]))
+    exp = cpp_checked(ref_input(files))
     exp_l = [l for l in exp.split("\n") if l.strip()]
     if not (len(pre_l) == len(post_l) == len(exp_l)):
         return None
@@ -1141,7 +1186,7 @@ def replay(ctx, path):
                 failing.append((r[0], r[1]))
         elif kind == "macroset":
             d = use_root("replay")
-            r = check_macro_case(d, case["files"])
+            _, r = check_macro_case(d, case["files"])
             if r:
                 failing.append((r[0], r[1]))
         elif kind == "pipeline":
